@@ -3,10 +3,16 @@ package server
 import (
 	"bytes"
 	"errors"
+	"fmt"
 	"io"
+	"net"
 	"net/http"
 	"net/http/httptest"
+	"os"
+	"path/filepath"
+	"strconv"
 	"testing"
+	"time"
 )
 
 type vChunkReader struct {
@@ -126,6 +132,85 @@ func TestVerifC14(t *testing.T) {
 			res["hit"] = hit
 			res["got"] = vHex(got)
 			res["files_after"] = vDirSizes(tmp)
+		case "abort":
+			// a response that has already spilled to disk when the exchange is torn down: the target drops
+			// the connection mid-body ("target") or the client goes away ("client"). Needs a real front
+			// server: only there does ReverseProxy abort the handler with a panic.
+			pre := int(vInt(c["pre"]))
+			who := vStr(c["who"])
+			release := make(chan struct{})
+			_, targetURL := testBackendWithHandler(t, func(w http.ResponseWriter, r *http.Request) {
+				w.Header().Set("Content-Type", "application/octet-stream")
+				w.Header().Set("Content-Length", strconv.Itoa(pre*2+10))
+				w.WriteHeader(200)
+				w.Write(bytes.Repeat([]byte("x"), pre))
+				if f, ok := w.(http.Flusher); ok {
+					f.Flush()
+				}
+				if who == "target" {
+					time.Sleep(150 * time.Millisecond) // let the proxy buffer (and spill) what was sent
+					if hj, ok := w.(http.Hijacker); ok {
+						conn, _, _ := hj.Hijack()
+						conn.Close()
+					}
+					return
+				}
+				<-release // client abort: keep the response open until the client has gone
+			})
+			opts := TargetOptions{BufferResponses: true, MaxMemoryBufferSize: vInt(c["maxm"]), MaxResponseBodySize: 0,
+				HealthCheckConfig: defaultHealthCheckConfig, ResponseTimeout: 5 * time.Second}
+			target, err := NewTarget(targetURL, opts)
+			if err != nil {
+				t.Fatalf("verif: NewTarget: %v", err)
+			}
+			done := make(chan struct{})
+			spilled := make(chan []int64, 1)
+			front := httptest.NewServer(http.HandlerFunc(func(w http.ResponseWriter, r *http.Request) {
+				defer close(done)
+				r2, err := target.StartRequest(r)
+				if err != nil {
+					return
+				}
+				target.SendRequest(w, r2)
+			}))
+			conn, err := net.Dial("tcp", front.Listener.Addr().String())
+			if err != nil {
+				t.Fatalf("verif: dial: %v", err)
+			}
+			fmt.Fprintf(conn, "GET / HTTP/1.1\r\nHost: x\r\n\r\n")
+			// wait until the spill file exists (the body has passed the memory limit)
+			go func() {
+				for k := 0; k < 400; k++ {
+					if f := vDirSizes(tmp); len(f) > 0 {
+						spilled <- f
+						return
+					}
+					time.Sleep(5 * time.Millisecond)
+				}
+				spilled <- nil
+			}()
+			during := <-spilled
+			if who == "client" {
+				conn.Close()
+			}
+			select {
+			case <-done:
+			case <-time.After(8 * time.Second):
+				res["hung"] = true
+			}
+			close(release)
+			conn.Close()
+			front.Close()
+			res["files_during"] = during
+			res["files_after"] = vDirSizes(tmp)
+			for _, e := range vDirSizes(tmp) { // keep later cases independent of a leak
+				_ = e
+			}
+			if ents, _ := os.ReadDir(tmp); len(ents) > 0 {
+				for _, e := range ents {
+					os.Remove(filepath.Join(tmp, e.Name()))
+				}
+			}
 		default:
 			t.Fatalf("verif: unknown case kind %v", c["kind"])
 		}
